@@ -243,7 +243,7 @@ func (s *SpecValidator) validateDuplicatePropertyNames() *Result {
 		}
 
 		knowns := make(map[string]struct{})
-		dups, rep := s.validateSchemaPropertyNames(k, sch, knowns)
+		dups, rep := s.validateSchemaPropertyNames(k, sch, knowns, make(map[string]struct{}))
 		if rep != nil && (rep.HasErrors() || rep.HasWarnings()) {
 			res.Merge(rep)
 		}
@@ -267,7 +267,7 @@ func (s *SpecValidator) resolveRef(ref *spec.Ref) (*spec.Schema, error) {
 	return spec.ResolveRef(s.spec.Spec(), ref)
 }
 
-func (s *SpecValidator) validateSchemaPropertyNames(nm string, sch spec.Schema, knowns map[string]struct{}) ([]dupProp, *Result) {
+func (s *SpecValidator) validateSchemaPropertyNames(nm string, sch spec.Schema, knowns, visited map[string]struct{}) ([]dupProp, *Result) {
 	var dups []dupProp
 
 	schn := nm
@@ -285,9 +285,17 @@ func (s *SpecValidator) validateSchemaPropertyNames(nm string, sch spec.Schema, 
 		schn = sch.Ref.String()
 	}
 
+	if schn != nm {
+		// an ancestor reached through several branches declares its properties only once
+		if _, seen := visited[schn]; seen {
+			return dups, res
+		}
+		visited[schn] = struct{}{}
+	}
+
 	// the properties inherited through allOf, then the ones declared beside it
 	for _, chld := range schc.AllOf {
-		dup, rep := s.validateSchemaPropertyNames(schn, chld, knowns)
+		dup, rep := s.validateSchemaPropertyNames(schn, chld, knowns, visited)
 		if rep != nil && (rep.HasErrors() || rep.HasWarnings()) {
 			res.Merge(rep)
 		}
@@ -348,7 +356,12 @@ func (s *SpecValidator) validateCircularAncestry(nm string, sch spec.Schema, kno
 	if len(schc.AllOf) > 0 {
 		for _, chld := range schc.AllOf {
 			if chld.Ref.String() != "" || len(chld.AllOf) > 0 {
-				anc, rec := s.validateCircularAncestry(schn, chld, knowns)
+				// every branch keeps its own list of ancestors: a common ancestor of two branches is no cycle
+				branch := make(map[string]struct{}, len(knowns))
+				for anc := range knowns {
+					branch[anc] = struct{}{}
+				}
+				anc, rec := s.validateCircularAncestry(schn, chld, branch)
 				if rec != nil && (rec.HasErrors() || !rec.HasWarnings()) {
 					res.Merge(rec)
 				}
